@@ -277,6 +277,23 @@ def build(ctx):
     r = ctx.prove_identity("lemma/inverse_unique", [X[i][j] - Y[i][j] for i in range(3) for j in range(3)], hy,
                            clause="X.M = 1 and M.Y = 1 imply X = Y: the inverse computed by route B equals route A's closed form")
     r.tag = "L"
+    # G: UnitCell.parameters under every pattern of coincident lengths / angles (5 x 5 set partitions): the reported values are the cell's own
+    from chmpy.crystal.unit_cell import UnitCell as _UC
+    parts = [(0, 1, 2), (0, 0, 1), (0, 1, 0), (0, 1, 1), (0, 0, 0)]
+    badp = []
+    for pl in parts:
+        for pa in parts:
+            Lv = [[5.1, 6.7, 8.3][k] for k in pl]
+            Av = [[1.35, 1.52, 1.71][k] for k in pa]
+            ca_, cb_, cg_ = np.cos(Av)
+            if 1 - ca_ ** 2 - cb_ ** 2 - cg_ ** 2 + 2 * ca_ * cb_ * cg_ <= 0.01:
+                continue
+            got = np.asarray(_UC.from_lengths_and_angles(Lv, Av).parameters, dtype=float)
+            want = np.array(Lv + list(np.degrees(Av)))
+            if not np.allclose(got, want, rtol=0, atol=1e-9):
+                badp.append({"lengths": Lv, "angles_rad": Av, "parameters": got.tolist(), "expected": want.tolist()})
+    ctx.ground("unit_cell.UnitCell.parameters/equality_patterns", not badp, clause="for every pattern of equal / distinct lengths and of equal / distinct angles, parameters reports (a, b, c, alpha, beta, gamma in degrees) of the cell",
+               detail=badp[:3], witness=badp[:2], fn=F("parameters"))
     constructors(ctx, I, UC)
     nfail = [{"input": w, "observed": f"clause '{k}' violated", "clause": k, "key": k} for k, w in fails_native.items()]
     ctx.add_bounded("unit_cell.UnitCell/bounded/native_clauses", "seeded generic cells: lengths 1..100, angles 0.2..pi-0.2, radicand > 0.02; 10 clauses each",
